@@ -122,7 +122,7 @@ def job_wrapper_sizes():
         accepted = [o for o in outs if o[1] is None or o[1] == 'CRASHED']
         return bool(accepted), 'real radial_solver called with a too-short %s: (argument, exception, success) = %r' % (', '.join(bad_arr + bad_tup), outs)
     res = [discharge(Obligation('radial_solver: the guards before the first allocation (%d found) force all five arrays to one length and all four per-layer tuples to one length' % len(guards), goal, pc,
-                                with_axioms=False, with_dens=False, replay=rp, key='wrapper:sizes'))]
+                                with_axioms=False, with_dens=False, replay=replay.api_or_witness([SOLVER], rp, 'the size guards of radial_solver do not force equal lengths (current source)'), key='wrapper:sizes'))]
     so = z3.Solver()
     so.add(pc)
     res.append({'name': 'wrapper sizes [reachability twin]', 'key': 'twin', 'twin': True, 'verdict': str(so.check()), 'solver_s': 0.0, 'info': {'guards': guards}})
